@@ -154,4 +154,4 @@ class Cursor:
         pass
 
     def __iter__(self):
-        return iter(self._rows if self._rows is not None else [])
+        return iter(self.fetchone, None)
